@@ -96,3 +96,26 @@ Proof. intros E1 E2 E3. unfold plan_of. now rewrite E3, E1, E2. Qed.
 Theorem c18_ldapi_decodes_path h hs st : std_stream st = None -> starttls st = false -> contains_colon (h :: hs) = false ->
   plan_of repaired18 (s2b "ldapi") (Some (h :: hs)) None st = PUnix (pdec (h :: hs)).
 Proof. intros E S Hc. unfold plan_of. cbn [beqs]. change (beqs (s2b "ldapi") (s2b "ldapi")) with true. cbv iota. rewrite S, andb_false_r, E, Hc. reflexivity. Qed.
+
+(* ---- the name matched against the server's certificate (new_tcp: `_hostname`); repair F43 ----
+   url.host_str() keeps the brackets of an IPv6 literal - the socket address needs them, the certificate check must not see them. Whether a
+   certificate is good for a name is the TLS library's business (oracle); the lane's certificates are described by the names they list. *)
+Definition unbracket (h : list byte) : list byte :=
+  match h with
+  | c :: r => if beq c "["%byte then match rev r with d :: m => if beq d "]"%byte then rev m else h | [] => h end else h
+  | [] => h end.
+Definition tls_name (fix43 : bool) (host : option (list byte)) : list byte :=
+  match host with Some (c :: r) => if fix43 then unbracket (c :: r) else c :: r | _ => s2b "localhost" end.
+Definition cert_names_match (sans : list (list byte)) (fix43 : bool) (host : option (list byte)) : bool := existsb (beqs (tls_name fix43 host)) sans.
+
+Theorem c18_tls_name_v6_literal a : tls_name true (Some ("["%byte :: a ++ ["]"%byte])) = a.
+Proof. unfold tls_name, unbracket. change (beq "[" "[")%byte with true. cbv iota. rewrite rev_app_distr. cbn [rev app]. change (beq "]" "]")%byte with true. cbv iota. apply rev_involutive. Qed.
+Theorem c18_tls_name_plain c r : beq c "["%byte = false -> tls_name true (Some (c :: r)) = c :: r.
+Proof. intros H. unfold tls_name, unbracket. now rewrite H. Qed.
+Theorem c18_tls_name_default f : tls_name f None = s2b "localhost" /\ tls_name f (Some []) = s2b "localhost".
+Proof. split; reflexivity. Qed.
+Lemma c18_refuted_F43 : tls_name false (Some (s2b "[::1]")) = s2b "[::1]" /\ tls_name true (Some (s2b "[::1]")) = s2b "::1" /\
+  cert_names_match [s2b "localhost"; s2b "127.0.0.1"; s2b "::1"] false (Some (s2b "[::1]")) = false /\
+  cert_names_match [s2b "localhost"; s2b "127.0.0.1"; s2b "::1"] true (Some (s2b "[::1]")) = true /\
+  cert_names_match [s2b "localhost"] true (Some (s2b "[::1]")) = false.
+Proof. vm_compute. repeat split. Qed.
